@@ -70,6 +70,9 @@ func (s *ServerLedActivationToken) Store(ctx context.Context, storage nodeenroll
 		if err != nil {
 			return fmt.Errorf("(%s) error marshaling wrapped creation time: %w", op, err)
 		}
+		// Only the wrapped value goes to storage; the clear value is
+		// repopulated from it on load
+		tokenToStore.CreationTime = nil
 	}
 
 	if err := storage.Store(ctx, tokenToStore); err != nil {
